@@ -10,6 +10,7 @@
  *   SUM n pattern | WSUM n pattern wpattern     data summary / weighted summary round trip
  *   ALIAS n pattern k                           alias table with n entries, k draws
  *   SAMPLE kind a                               one sampler call with boundary parameters
+ *   LOG which a                                 user-level logging calls (own flag bits, custom time format)
  *   EMPTY which a                               operations on empty (or emptied) containers, copies into targets with data
  */
 #include "core.h"
@@ -241,6 +242,21 @@ static void empty_ops(int which, int64_t a)
     PROBE("util.empty_container_ops");
 }
 
+/* user-level logging: own flag bits, from the dispatcher and from inside a process, default and custom time format */
+static const char *fmt_time(double t) { static _Thread_local char buf[32]; snprintf(buf, sizeof buf, "<%.3f>", t); return buf; }
+static void log_ops(int which, int64_t a)
+{
+    const uint32_t bit = UINT32_C(1) << ((uint64_t)a % 28);
+    switch (((which % 5) + 5) % 5) {
+        case 0: cmb_logger_flags_on(bit); cmb_logger_user(devnull, bit, "user message %d", (int)a); cmb_logger_flags_off(bit); break;
+        case 1: cmb_logger_flags_off(bit); cmb_logger_user(devnull, bit, "suppressed %d", (int)a); break;
+        case 2: cmb_logger_set_timeformatter(fmt_time); cmb_logger_flags_on(bit); cmb_logger_user(devnull, bit, "%s", ""); cmb_logger_user(devnull, bit | (bit << 1), "two bits"); cmb_logger_flags_off(bit); break;
+        case 3: cmb_logger_flags_on(CMB_LOGGER_WARNING); cmb_logger_warning(devnull, "a warning with the seed, %g", 1.5); cmb_logger_flags_off(CMB_LOGGER_WARNING); break;
+        default: cmb_logger_flags_on(CMB_LOGGER_INFO); cmb_logger_info(devnull, "info %" PRId64, a); cmb_logger_flags_off(CMB_LOGGER_INFO); break;
+    }
+    PROBE("util.logger_calls");
+}
+
 static void interpret(void)
 {
     for (int i = 0; i < P->n; i++) {
@@ -255,6 +271,7 @@ static void interpret(void)
         else if (pis(l, "ALIAS")) alias_roundtrip((int)((uint64_t)pa(l, 0) % 300) + 1, (int)pa(l, 1), (int)((uint64_t)pa(l, 2) % 200));
         else if (pis(l, "SAMPLE")) sample_call((int)pa(l, 0), pa(l, 1));
         else if (pis(l, "EMPTY")) empty_ops((int)pa(l, 0), pa(l, 1));
+        else if (pis(l, "LOG")) log_ops((int)pa(l, 0), pa(l, 1));
         TR2(l->op, pa(l, 0), pa(l, 1));
     }
 }
@@ -311,7 +328,8 @@ static void ut_gen(plan *p, uint64_t seed, const char *cfg)
         else if (k < 68) plan_add(p, "TOP", 3, (int64_t)vrng_below(&r, 12), (int64_t)vrng_below(&r, 100), (int64_t)vrng_below(&r, 20));
         else if (k < 74) plan_add(p, "SUM", 2, (int64_t)vrng_below(&r, 40), (int64_t)vrng_below(&r, 7));
         else if (k < 80) plan_add(p, "WSUM", 3, (int64_t)vrng_below(&r, 40), (int64_t)vrng_below(&r, 7), (int64_t)vrng_below(&r, 4));
-        else if (k < 83) plan_add(p, "EMPTY", 2, (int64_t)vrng_below(&r, 10), (int64_t)vrng_below(&r, 16));
+        else if (k < 82) plan_add(p, "LOG", 2, (int64_t)vrng_below(&r, 5), (int64_t)vrng_below(&r, 100));
+        else if (k < 84) plan_add(p, "EMPTY", 2, (int64_t)vrng_below(&r, 10), (int64_t)vrng_below(&r, 16));
         else if (k < 87) plan_add(p, "ALIAS", 3, (int64_t)vrng_below(&r, vrng_chance(&r, 1, 2) ? 6 : 300), (int64_t)vrng_below(&r, 4), (int64_t)vrng_below(&r, 200));
         else plan_add(p, "SAMPLE", 2, (int64_t)vrng_below(&r, 30), (int64_t)vrng_below(&r, 4));
     }
